@@ -1,15 +1,18 @@
 #!/bin/bash
-# tools/try_seed.sh <patch (absolute path)> <property ids...>: apply a seeded change to /repo, run the quick checks,
-# replay the first reported violation without the explorer, undo
+# tools/try_seed.sh <patch (absolute path)> <property ids...>: apply a seeded change to /repo, run the quick checks
+# (each under a 15-minute limit), replay the first reported violation without the explorer, undo (also when interrupted)
 patch=$1; shift
 cd /verif
 git -C /repo apply $patch || { echo "PATCH-DOES-NOT-APPLY"; exit 3; }
+trap 'git -C /repo checkout -- .' EXIT
 for id in "$@"; do
-  out=$(./check $id quick 2>&1); rc=$?
+  out=$(timeout -k 5 900 ./check $id quick 2>&1); rc=$?
+  [ $rc -eq 124 ] && pkill -f "target/release/sem" 
   echo "== $id rc=$rc $(echo "$out" | grep -c '^VIOLATION') violation line(s)"
   echo "$out" | grep -A1 "^VIOLATION" | grep "key:" | cut -c1-260 | head -5
   rf=$(echo "$out" | grep "^VIOLATION" | head -1 | sed 's/.*replay=//')
   if [ -n "$rf" ]; then echo "   replay of $rf with the change applied: $(./check $id --replay $rf 2>&1 | tail -1 | cut -c1-200)"; fi
 done
 git -C /repo checkout -- .
+trap - EXIT
 if [ -n "${rf:-}" ]; then echo "   replay on the unchanged tree: $(./check $id --replay $rf 2>&1 | tail -1 | cut -c1-200)"; fi
